@@ -16,6 +16,11 @@ FlatM(M) == LET RECURSIVE F(_)
 Unflat(v, n) == [i \in 1..n |-> [j \in 1..n |-> v[(i - 1) * n + j]]]
 Mot(e) == Mk(e.q, e.t, e.d)
 
+\* the magnitude n of a twist (v, w): the length of w, or of v when w is null; positive, checked here, not trusted
+TwMag3(a, n) == LET v == <<a[1], a[2], a[3]>>  w == <<a[4], a[5], a[6]>>
+                IN n > 0 /\ n * n = (IF w = <<0, 0, 0>> THEN DotN(v, v) ELSE DotN(w, w))
+TwMag2(a, n) == n > 0 /\ n * n = (IF a[3] = 0 THEN a[1] * a[1] + a[2] * a[2] ELSE a[3] * a[3])
+
 Expected(e) ==
   CASE e.fn = "skew3"    -> FlatM(Skew3(e.a))
     [] e.fn = "skew1"    -> FlatM(Skew1(e.a[1]))
@@ -38,6 +43,11 @@ Expected(e) ==
     [] e.fn = "norm"     -> IF e.n >= 0 /\ e.n * e.n = DotN(e.a, e.a) THEN << e.n >> ELSE << >>
     [] e.fn = "unitvec"  -> IF e.n > 0 /\ e.n * e.n = DotN(e.a, e.a) THEN e.a ELSE << >>       \* times |a|
     [] e.fn = "unitvec_norm" -> IF e.n > 0 /\ e.n * e.n = DotN(e.a, e.a) THEN e.a \o << e.n >> ELSE << >>
+    \* unit twists: e.a = e.n * (unit twist), e.n the magnitude: |w|, or |v| when the rotational part is null
+    [] e.fn = "unittwist"       -> IF TwMag3(e.a, e.n) THEN e.a ELSE << >>
+    [] e.fn = "unittwist_norm"  -> IF TwMag3(e.a, e.n) THEN e.a \o << e.n >> ELSE << >>
+    [] e.fn = "unittwist2"      -> IF TwMag2(e.a, e.n) THEN e.a ELSE << >>
+    [] e.fn = "unittwist2_norm" -> IF TwMag2(e.a, e.n) THEN e.a \o << e.n >> ELSE << >>
     [] OTHER             -> << >>
 
 Init == l = 1 /\ bad = <<>>
